@@ -1,6 +1,6 @@
 (** Prop_C16.v -- C16: blurred usage timestamps never reveal exact client
     times.  Only statements, each closed by an earlier lemma. *)
-From MW Require Import Base Store Monad Usage Server Websocket Service UsageFacts BlurInv Inst_Params.
+From MW Require Import Base Store Monad Usage Server Websocket Service UsageFacts BlurInv Inst_Params ProtoFacts.
 
 (** for every positive interval and every time (in ticks of any granularity,
     hence every rational time): a multiple of the interval, not after the true
@@ -59,6 +59,16 @@ Proof. exact mailbox_times_spec. Qed.
 Print Assumptions C16_mailbox_started_is_blurred_first_arrival.
 
 (** the repository's own configuration satisfies the hypotheses *)
+(** the connect time of a client-version record: the only statement that writes `client_versions` is the
+    bind handler, and the row it writes carries [blur_round (blur cfg) (now s)] -- the arrival time of the
+    bind rounded down to the interval, hence (by [C16_blur_round_spec]) a multiple of it and less than one
+    interval before the true time *)
+Theorem C16_connect_time_is_blurred_arrival : ltac:(let t := type of bind_effect in exact t).
+Proof. exact bind_effect. Qed.
+Check C16_connect_time_is_blurred_arrival.
+Print Assumptions C16_connect_time_is_blurred_arrival.
+
+
 Example C16_nonvacuous :
   let cfg := gen_cfg true true (Some 480) in     (* --blur-usage=60 at 8 ticks per second *)
   blur cfg = Some 480 /\ 0 < 480 /\
